@@ -102,6 +102,13 @@ def gen_cases(rng, tier):
             if ctx.units[u]["cls"] != ctx.units[v]["cls"] or ctx.units[u]["scale"] is None:
                 ops.append(["ueq", u, v])
                 ops.append(["ucmp", rng.choice(["lt", "le", "gt", "ge"]), u, v])
+        # units of a QUANTISED type compare by their exact scales too (also
+        # units smaller than the quantum or between two multiples of it)
+        for _ in range(8 if len(qunits) >= 2 else 0):
+            u = rng.choice(qunits)
+            v = rng.choice([x for x in qunits if ctx.units[x]["cls"] == ctx.units[u]["cls"]])
+            ops.append(["ueq", u, v])
+            ops.append(["ucmp", rng.choice(["lt", "le", "gt", "ge"]), u, v])
         cases.append(_qty.case_of(ctx, ops, ["compare"]))
     return cases
 
